@@ -7,6 +7,7 @@ package c14
 
 import (
 	"bytes"
+	"context"
 	"encoding/xml"
 	"fmt"
 	"io"
@@ -255,10 +256,21 @@ func (d *driver) handle(p Pat, via string, start *xml.StartElement, typ, id stri
 		d.stray = append(d.stray, inv)
 	}
 	d.mu.Unlock()
-	if p.Err {
-		return fmt.Errorf("verif: handler %s fails", p.Tag())
+	switch p.Err {
+	case "":
+		return nil
+	case "eof":
+		return io.EOF
+	case "unexpected-eof":
+		return io.ErrUnexpectedEOF
+	case "wrapped-eof":
+		return fmt.Errorf("verif: handler %s: %w", p.Tag(), io.EOF)
+	case "canceled":
+		return context.Canceled
+	case "deadline":
+		return context.DeadlineExceeded
 	}
-	return nil
+	return fmt.Errorf("verif: handler %s fails", p.Tag())
 }
 
 func (d *driver) options() []mux.Option { return d.optionsFor(d.c.Pats) }
@@ -563,6 +575,17 @@ func (j *judge) judgeElement(e *El, full []xml.Token, rec *elemRec, written []st
 		if x.Shape == "empty" && len(x.Invoke) == 1 && kind != "iq" {
 			c.Count("empty_stanza_to_wildcard", 1)
 		}
+		if kind == "iq" && len(e.Kids) > 0 {
+			if n := e.Fill; (n >= 2) || (n >= 1 && e.Sep != "") {
+				c.Count("iq_payload_after_two_or_more_whitespace_tokens", 1)
+			}
+		}
+		if e.Fill > 0 && len(e.Kids) > 1 && (kind == "message" || kind == "presence") {
+			c.Count("stanza_payloads_separated_by_several_whitespace_tokens", 1)
+		}
+		if len(e.QAttrs) > 0 && isStanzaLocal(kind) {
+			c.Count("stanzas_with_qualified_type_id_to_from_attributes", 1)
+		}
 		if kind == "iq" && e.NoType {
 			c.Count("iq_without_type_attribute", 1)
 			if len(x.Invoke) > 0 {
@@ -607,19 +630,25 @@ func (j *judge) judgeElement(e *El, full []xml.Token, rec *elemRec, written []st
 	// --- handler errors come back out of HandleXMPP; nothing else does
 	handlerErr := false
 	for _, inv := range x.Invoke {
-		if inv.Pat.Err {
+		if inv.Pat.Err != "" {
 			handlerErr = true
 		}
 	}
 	if handlerErr && j.count {
 		c.Count("elements_with_failing_handler", 1)
-		if ec == "error" {
+		if ec == "error" || ec == "eof" {
 			c.Count("handler_error_returned_by_mux", 1)
 		} else {
 			c.Count("handler_error_not_returned_by_mux", 1)
 		}
 		for k, inv := range x.Invoke {
-			if inv.Pat.Err && k+1 < len(x.Invoke) {
+			if inv.Pat.Err != "" && inv.Pat.Err != "plain" {
+				c.Count("handlers_returning_sentinel_errors", 1)
+			}
+			if inv.Pat.Err == "eof" && k+1 < len(x.Invoke) {
+				c.Count("handlers_due_after_a_handler_returned_io_EOF", 1)
+			}
+			if inv.Pat.Err != "" && k+1 < len(x.Invoke) {
 				c.Count("handlers_invoked_after_failing_handler", len(x.Invoke)-k-1)
 				if inv.Pat.Read >= 0 {
 					c.Count("handlers_invoked_after_failing_handler_that_read_part", 1)
@@ -628,7 +657,7 @@ func (j *judge) judgeElement(e *El, full []xml.Token, rec *elemRec, written []st
 			}
 		}
 	}
-	if ec == "error" && handlerErr {
+	if (ec == "error" || ec == "eof") && handlerErr {
 		ec = "none"
 	}
 	// --- the default: an error return where nothing (or the fallback) was due
@@ -1580,6 +1609,8 @@ func Prop() *core.Prop {
 		"served_sessions", "served_elements", "direct_elements",
 		"direct_memory_reader_elements", "memory_reader_last_token_delivered_with_eof", "reentrant_dispatches",
 		"concurrent_scenarios", "concurrent_dispatches", "concurrent_scenarios_with_overlapping_handlers",
+		"iq_payload_after_two_or_more_whitespace_tokens", "stanza_payloads_separated_by_several_whitespace_tokens",
+		"stanzas_with_qualified_type_id_to_from_attributes", "handlers_returning_sentinel_errors", "handlers_due_after_a_handler_returned_io_EOF",
 		"staged_registration_scenarios", "staged_elements", "staged_elements_routed_differently_after_later_registration",
 		"staged_more_specific_pattern_registered_later", "iq_without_type_attribute", "empty_type_pattern_invoked_for_untyped_iq",
 		"cases_with_empty_type_patterns_next_to_explicit_ones",
